@@ -27,14 +27,38 @@ CONSTANTS
     MaxSched,       \* router::MAX_SCHEDULE_ITERATIONS (code: 100, scaled build: 2)
     OutBatch,       \* RouterConfig.max_outgoing_packet_count
     MatchRel,       \* set of <<topic, filter>> pairs that match (computed with MqttTopic!Matches)
+    Strategy,       \* RouterConfig.shared_subscriptions_strategy: "RoundRobin" | "Random" | "Sticky"
     RFix            \* repairs applied to the router code (fix: commits in /repo); {} = the code as pinned.
                     \* "ready_unknown": Ready/Shadow for a removed id is ignored (was: panic); Ready only wakes a Busy tracker
                     \* "unsuback_one":  exactly one UNSUBACK per UNSUBSCRIBE (was: one per filter actually removed, none otherwise)
                     \* "unsub_notifs":  unsubscribe also drops the request from `notifications`
                     \* "resume_submap": subscriptions of a resumed session are registered in subscription_map again
+                    \* "group_bufferfull": the shared group (cursor, turn) is updated before the BufferFull return
+                    \* "group_per_filter": shared_subscriptions is keyed by group name and filter (was: name alone)
+                    \* "unsub_own_group": UNSUBSCRIBE leaves only the group of the unsubscribed shared filter (was: every group)
+                    \* "unsub_shared_waiter": UNSUBSCRIBE finds the parked request by connection and path in the log of the base filter
+                    \* "group_skip_unread": a member whose turn it is not is parked only when the group has nothing unread
+                    \* "resume_rejoin": a resumed persistent session joins the groups of its shared subscriptions again
+                    \* "group_member_once": (not applied) a repeated SUBSCRIBE does not add the client to the group again
 
 NONE == "none"
 Ids == 0..(MaxConn - 1)
+
+\* ---- shared subscriptions ($share/<group>/<filter>) ---------------------------
+\* a shared filter path is the sequence <<"$share/", group, "/", ...filter symbols>>; everything that concerns the commit
+\* log (filter index, log, waiters, retransmission map) is keyed by the base filter, everything that concerns the
+\* subscription (subscription_map, Connection.subscriptions, DataRequest.filter) by the full path
+IsShared(f) == Len(f) >= 4 /\ f[1] = "$share/"
+Base(f) == IF IsShared(f) THEN SubSeq(f, 4, Len(f)) ELSE f
+\* key of the group in Router.shared_subscriptions: the group name alone (the code as pinned), or name + filter
+GroupKey(f) == IF "group_per_filter" \in RFix THEN SubSeq(f, 2, Len(f)) ELSE <<f[2]>>
+NOGROUP == [has |-> FALSE, clients |-> <<>>, turn |-> 0, cursor |-> 0]
+\* SharedGroup::remove_client (the group is dropped by the caller when it becomes empty)
+GroupRemove(g, cid) ==
+    IF ~g.has THEN g
+    ELSE LET cl == SelectSeq(g.clients, LAMBDA x : x # cid) IN
+         IF cl = <<>> THEN NOGROUP ELSE [g EXCEPT !.clients = cl, !.turn = g.turn % Len(cl)]
+GroupCurrent(g) == IF g.turn < Len(g.clients) THEN g.clients[g.turn + 1] ELSE NONE
 
 Matches(t, f) == <<t, f>> \in MatchRel
 
@@ -99,6 +123,8 @@ RInit(filters, topics, cids) ==
      retained |-> [t \in topics |-> NOMSG],
      wills |-> [c \in cids |-> NOMSG],
      grave |-> [c \in cids |-> NOGRAVE],
+     unsubs |-> [c \in cids |-> [f \in filters |-> 0]],     \* ghost: successful unsubscribes per client id and filter
+     groups |-> [k \in {GroupKey(f) : f \in {x \in filters : IsShared(x)}} |-> NOGROUP],   \* Router.shared_subscriptions
      panicked |-> FALSE]
 
 \* ---- small helpers ----------------------------------------------------------
@@ -203,13 +229,26 @@ Disconnection(s, id, withReason) ==
         RECURSIVE Flat(_)
         Flat(fq) == IF fq = <<>> THEN <<>> ELSE rm[Head(fq)].out \o Flat(Tail(fq))
         parkedReqs == Flat(r.created)
-        rewind(req) == IF RetxCursor(c.inflight, req.f) >= 0 THEN [req EXCEPT !.cursor = RetxCursor(c.inflight, req.f)] ELSE req
+        rewind(req) == IF RetxCursor(c.inflight, Base(req.f)) >= 0 THEN [req EXCEPT !.cursor = RetxCursor(c.inflight, Base(req.f))] ELSE req
         saved == [i \in 1..Len(c.reqs \o parkedReqs) |-> rewind((c.reqs \o parkedReqs)[i])]
+        \* the client leaves every group (a group without members is dropped) ...
+        groups1 == [k \in DOMAIN r.groups |-> GroupRemove(r.groups[k], c.cid)]
+        \* ... and, for a persistent session, the cursor of every group that still exists is set back to the oldest
+        \* unacknowledged forward of this connection on the request's filter (request by request)
+        RECURSIVE Rewind(_, _)
+        Rewind(gs, reqs) ==
+            IF reqs = <<>> THEN gs
+            ELSE LET q == Head(reqs) k == RetxCursor(c.inflight, Base(q.f)) IN
+                 IF IsShared(q.f) /\ k >= 0 /\ gs[GroupKey(q.f)].has
+                   THEN Rewind([gs EXCEPT ![GroupKey(q.f)].cursor = k], Tail(reqs))
+                   ELSE Rewind(gs, Tail(reqs))
+        groups2 == IF c.clean THEN groups1 ELSE Rewind(groups1, c.reqs \o parkedReqs)
         r1 == [r EXCEPT !.conns[id] = NOCONN,
                         !.free = <<id>> \o @,
                         !.connMap[c.cid] = -1,
                         !.waiters = [f \in DOMAIN @ |-> rm[f].rest],
                         !.subMap = [f \in DOMAIN @ |-> IF f \in c.subs THEN @[f] \ {id} ELSE @[f]],
+                        !.groups = groups2,
                         !.grave[c.cid] = IF c.clean THEN [NOGRAVE EXCEPT !.has = TRUE]
                                          ELSE [has |-> TRUE, state |-> TRUE, reqs |-> saved, subs |-> c.subs, pubrels |-> c.pubrels]]
     IN  St(r1, st2)
@@ -244,7 +283,18 @@ EvConnect(s, n) ==
                         !.subMap = IF "resume_submap" \in RFix THEN [f \in DOMAIN @ |-> IF f \in c2.subs THEN @[f] \cup {id} ELSE @[f]] ELSE @,
                         !.grave[cid] = NOGRAVE,                       \* graveyard.retrieve removes the entry
                         !.wills[cid] = IF nt.will # NOMSG THEN nt.will ELSE @]
-        r2 == Reschedule(r1, id, "Init")
+        \* "resume_rejoin": a resumed session joins the groups of its shared subscriptions again (as pinned it stays
+        \* outside: its request is tracked, but it is never the member whose turn it is)
+        RECURSIVE Rejoin(_, _)
+        Rejoin(gs, reqs) ==
+            IF reqs = <<>> THEN gs
+            ELSE LET q == Head(reqs) IN
+                 IF ~IsShared(q.f) THEN Rejoin(gs, Tail(reqs))
+                 ELSE LET k == GroupKey(q.f)
+                          g0 == IF gs[k].has THEN gs[k] ELSE [NOGROUP EXCEPT !.has = TRUE, !.cursor = q.cursor]
+                      IN  Rejoin([gs EXCEPT ![k] = [g0 EXCEPT !.clients = Append(@, cid)]], Tail(reqs))
+        r1b == IF resume /\ "resume_rejoin" \in RFix THEN [r1 EXCEPT !.groups = Rejoin(@, c2.reqs)] ELSE r1
+        r2 == Reschedule(r1b, id, "Init")
     IN  St(r2, [s1.nets EXCEPT ![n].id = id, ![n].held = TRUE])
 
 (***************************************************************************)
@@ -258,12 +308,22 @@ QosCode(q) == q
 
 \* one SUBSCRIBE filter (prepare_filter); returns r
 SubOne(r, id, f, q) ==
-    LET isNewLog == f \notin SeqToSet(r.created)
-        r1 == IF isNewLog THEN [r EXCEPT !.created = Append(@, f)] ELSE r
-        cursor == Len(r1.logs[f])
+    LET b == Base(f)
+        isNewLog == b \notin SeqToSet(r.created)
+        r1 == IF isNewLog THEN [r EXCEPT !.created = Append(@, b)] ELSE r
+        cursor == Len(r1.logs[b])
         r2 == [r1 EXCEPT !.subMap[f] = @ \cup {id}]
-    IN  IF f \in r2.conns[id].subs THEN r2
-        ELSE Reschedule(Track([r2 EXCEPT !.conns[id].subs = @ \cup {f}], id, Req(f, q, cursor, TRUE)), id, "NewFilter")
+        cid == r.conns[id].cid
+        \* shared_subscriptions.entry(group).or_insert(SharedGroup::new(cursor, strategy)).add_client(client_id): the
+        \* client is added on every SUBSCRIBE, also when it is a member already (as pinned)
+        r3 == IF ~IsShared(f) THEN r2
+              ELSE LET k == GroupKey(f)
+                       g0 == IF r2.groups[k].has THEN r2.groups[k] ELSE [NOGROUP EXCEPT !.has = TRUE, !.cursor = cursor]
+                       g1 == IF "group_member_once" \in RFix /\ \E i \in 1..Len(g0.clients) : g0.clients[i] = cid THEN g0
+                             ELSE [g0 EXCEPT !.clients = Append(@, cid)]
+                   IN  [r2 EXCEPT !.groups[k] = g1]
+    IN  IF f \in r3.conns[id].subs THEN r3
+        ELSE Reschedule(Track([r3 EXCEPT !.conns[id].subs = @ \cup {f}], id, Req(f, q, cursor, ~IsShared(f))), id, "NewFilter")
 
 RECURSIVE SubAll(_, _, _, _)
 \* returns [r, codes, bad]; a "$"-filter (not $share) is refused: disconnect, remaining filters skipped
@@ -278,13 +338,26 @@ UnsubOne(r, id, f) ==
     IF f \notin DOMAIN r.subMap \/ id \notin r.subMap[f] THEN [r |-> r, acked |-> FALSE]
     ELSE LET r1 == [r EXCEPT !.subMap[f] = @ \ {id}] IN
          IF f \notin r1.conns[id].subs THEN [r |-> r1, acked |-> FALSE]
-         ELSE [r |-> [r1 EXCEPT !.conns[id].subs = @ \ {f},
+         ELSE LET cid == r.conns[id].cid
+                  \* as pinned: the client leaves *every* group, whichever filter it unsubscribes; "unsub_own_group": only
+                  \* the group of the filter it unsubscribes
+                  groups1 == [k \in DOMAIN r1.groups |->
+                                IF "unsub_own_group" \in RFix /\ ~(IsShared(f) /\ k = GroupKey(f)) THEN r1.groups[k]
+                                ELSE GroupRemove(r1.groups[k], cid)]
+                  \* remove_waiters_for_id(id, filter): looks the *path* up in filter_indexes (as pinned: a $share path
+                  \* is not there, nothing is removed) and removes the first parked entry of this id whatever its filter;
+                  \* "unsub_shared_waiter": the log of the base filter is searched for the entry of this id and path
+                  wkey == Base(f)
+                  w == r1.waiters[wkey]
+                  idx == IF "unsub_shared_waiter" \in RFix THEN {i \in 1..Len(w) : w[i][1] = id /\ w[i][2].f = f}
+                         ELSE IF IsShared(f) THEN {} ELSE {i \in 1..Len(w) : w[i][1] = id}
+              IN
+              [r |-> [r1 EXCEPT !.conns[id].subs = @ \ {f},
                                 !.conns[id].reqs = SelectSeq(@, LAMBDA q : q.f # f),        \* untrack
-                                \* remove_waiters_for_id: only the first parked entry of this id
-                                !.waiters[f] = LET w == r1.waiters[f]
-                                                   idx == {i \in 1..Len(w) : w[i][1] = id}
-                                               IN  IF idx = {} THEN w
-                                                   ELSE SwapRemove(w, CHOOSE i \in idx : \A j \in idx : i <= j)],
+                                !.unsubs[cid][f] = @ + 1,
+                                !.groups = groups1,
+                                !.waiters[wkey] = IF idx = {} THEN w
+                                                  ELSE SwapRemove(w, CHOOSE i \in idx : \A j \in idx : i <= j)],
                acked |-> TRUE]
 
 RECURSIVE UnsubAll(_, _, _, _, _)
@@ -386,63 +459,89 @@ PushQ(c, msgs, q, f, out) ==
     ELSE LET e == Head(msgs)                      \* <<msg, cursor or -1>>
              pk == c.lastPkid + 1
              c1 == [c EXCEPT !.lastPkid = IF pk = MaxInflight THEN 0 ELSE pk,
-                             !.inflight = Append(@, <<pk, f, e[2]>>)]
+                             !.inflight = Append(@, <<pk, Base(f), e[2]>>)]     \* keyed by filter index
          IN  PushQ(c1, Tail(msgs), q, f, Append(out, NFwd(e[1], q, pk, f)))
 
 \* forward_device_data for one request: result [status, req, c, obuf, rung]
 RetainedFor(r, f) == {r.retained[t] : t \in {t \in DOMAIN r.retained : r.retained[t] # NOMSG /\ Matches(t, f)}}
 SeqsOf(S) == IF S = {} THEN {<<>>} ELSE {p \in [1..Cardinality(S) -> S] : \A i, j \in 1..Cardinality(S) : i # j => p[i] # p[j]}
 
-Forward(r, id, req, obuf) ==
+Forward(r, id, req0, obuf) ==
     LET c == r.conns[id]
-        slots0 == IF req.q # 0 THEN MaxInflight - Len(c.inflight) ELSE OutBatch
+        gk == IF IsShared(req0.f) THEN GroupKey(req0.f) ELSE <<>>
+        grouped == IsShared(req0.f) /\ r.groups[gk].has            \* request.group names a group that exists
+        grp == IF grouped THEN r.groups[gk] ELSE NOGROUP
+        \* the request adopts the group's cursor
+        req == IF grouped THEN [req0 EXCEPT !.cursor = grp.cursor] ELSE req0
+        slotsA == IF req.q # 0 THEN MaxInflight - Len(c.inflight) ELSE OutBatch
+        slots0 == IF grouped /\ Strategy = "RoundRobin" THEN 1 ELSE slotsA      \* one message per turn
+        log == r.logs[Base(req.f)]
     IN
-    IF req.q # 0 /\ slots0 = 0 THEN {[status |-> "InflightFull", req |-> req, c |-> c, obuf |-> obuf, rang |-> 0]}
+    IF req.q # 0 /\ slotsA = 0 THEN {[status |-> "InflightFull", req |-> req, c |-> c, obuf |-> obuf, rang |-> 0, groups |-> r.groups]}
     ELSE
-    {   LET ret == IF req.retained THEN SubSeq(rs, 1, IF Len(rs) < slots0 THEN Len(rs) ELSE slots0) ELSE <<>>
+    UNION {
+        LET ret == IF req.retained THEN SubSeq(rs, 1, IF Len(rs) < slots0 THEN Len(rs) ELSE slots0) ELSE <<>>
             slots == slots0 - Len(ret)
-            log == r.logs[req.f]
             avail == Len(log) - req.cursor
             n == IF avail < slots THEN avail ELSE slots
             caughtup == req.cursor + slots >= Len(log)          \* Position::Done
             next == req.cursor + n
             msgs == [i \in 1..Len(ret) |-> <<ret[i], -1>>] \o [i \in 1..n |-> <<log[req.cursor + i], req.cursor + i - 1>>]
             req1 == [req EXCEPT !.cursor = next, !.retained = FALSE]
+            \* not this member's turn: nothing is forwarded, the request (with the adopted cursor) is parked when the read
+            \* reached the end of the log, otherwise set aside for this scheduling turn
+            skip == grouped /\ GroupCurrent(grp) # c.cid
+            \* after a forward: the turn moves on and the group cursor follows the request
+            turns == CASE Strategy = "RoundRobin" -> {(grp.turn + 1) % Len(grp.clients)}
+                       [] Strategy = "Random"     -> 0..(Len(grp.clients) - 1)
+                       [] OTHER                   -> {grp.turn}
+            after == IF grouped THEN {[r.groups EXCEPT ![gk].turn = t, ![gk].cursor = next] : t \in turns} ELSE {r.groups}
         IN
-        IF msgs = <<>> THEN [status |-> "FilterCaughtup", req |-> req1, c |-> c, obuf |-> obuf, rang |-> 0]
+        \* as pinned the request is parked when the read reached the end of the log, although the messages it read are
+        \* still unread by the group: if the member whose turn it is leaves, nobody is woken. "group_skip_unread": parked
+        \* only when there is nothing to read
+        IF skip THEN {[status |-> IF (IF "group_skip_unread" \in RFix THEN msgs = <<>> ELSE caughtup) THEN "FilterCaughtup" ELSE "SkipRequest", req |-> [req EXCEPT !.retained = FALSE], c |-> c, obuf |-> obuf, rang |-> 0, groups |-> r.groups]}
+        ELSE IF msgs = <<>> THEN {[status |-> "FilterCaughtup", req |-> req1, c |-> c, obuf |-> obuf, rang |-> 0, groups |-> r.groups]}
         ELSE LET pq == IF req.q = 0
                          THEN [c |-> c, out |-> [i \in 1..Len(msgs) |-> NFwd(msgs[i][1], 0, 0, req.f)]]
                          ELSE PushQ(c, msgs, req.q, req.f, <<>>)
                  ob == obuf \o pq.out
              IN  IF Len(ob) >= MaxChan - 1
-                   THEN [status |-> "BufferFull", req |-> req1, c |-> pq.c, obuf |-> Append(ob, NUnsched), rang |-> 1]
-                   ELSE [status |-> IF caughtup THEN "FilterCaughtup" ELSE "PartialRead", req |-> req1, c |-> pq.c, obuf |-> ob, rang |-> 1]
+                   \* as pinned the function returns before the group is updated: the group cursor stays behind the
+                   \* request; "group_bufferfull": the group is updated first
+                   THEN {[status |-> "BufferFull", req |-> req1, c |-> pq.c, obuf |-> Append(ob, NUnsched), rang |-> 1, groups |-> gs]
+                          : gs \in (IF "group_bufferfull" \in RFix THEN after ELSE {r.groups})}
+                   ELSE {[status |-> IF caughtup THEN "FilterCaughtup" ELSE "PartialRead", req |-> req1, c |-> pq.c, obuf |-> ob, rang |-> 1, groups |-> gs]
+                          : gs \in after}
       : rs \in (IF req.retained THEN SeqsOf(RetainedFor(r, req.f)) ELSE {<<>>}) }
 
 \* the request loop: carry [r, reqs (remaining), obuf, rang, iter, done]
 RECURSIVE Loop(_, _, _)
 Loop(cy, id, n) ==
-    \* cy: [r, reqs, obuf, rang]; returns a set of [r, obuf, rang]
+    \* cy: [r, reqs, skipped, obuf, rang]; returns a set of [r, obuf, rang]
     IF cy.r.panicked THEN {[r |-> cy.r, obuf |-> cy.obuf, rang |-> cy.rang]}
     ELSE IF n = 0
       THEN \* iterations used up: requests go back to the tracker, connection stays Ready
-           {[r |-> [cy.r EXCEPT !.conns[id].reqs = @ \o cy.reqs], obuf |-> cy.obuf, rang |-> cy.rang]}
+           {[r |-> [cy.r EXCEPT !.conns[id].reqs = @ \o cy.reqs \o cy.skipped], obuf |-> cy.obuf, rang |-> cy.rang]}
     ELSE IF cy.reqs = <<>>
-      THEN \* nothing left: caught up
-           {[r |-> Pause(cy.r, id, "Caughtup"), obuf |-> cy.obuf, rang |-> cy.rang]}
+      THEN \* nothing left: caught up, unless requests were set aside (they go back; the connection stays Ready)
+           {[r |-> IF cy.skipped = <<>> THEN Pause(cy.r, id, "Caughtup") ELSE [cy.r EXCEPT !.conns[id].reqs = @ \o cy.skipped],
+             obuf |-> cy.obuf, rang |-> cy.rang]}
     ELSE UNION {
-           LET r1 == [cy.r EXCEPT !.conns[id] = fw.c] IN
+           LET r1 == [cy.r EXCEPT !.conns[id] = fw.c, !.groups = fw.groups] IN
            CASE fw.status = "BufferFull" ->
-                  {[r |-> Pause([r1 EXCEPT !.conns[id].reqs = @ \o Append(Tail(cy.reqs), fw.req)], id, "Busy"),
+                  {[r |-> Pause([r1 EXCEPT !.conns[id].reqs = @ \o Append(Tail(cy.reqs), fw.req) \o cy.skipped], id, "Busy"),
                     obuf |-> fw.obuf, rang |-> cy.rang + fw.rang]}
              [] fw.status = "InflightFull" ->
-                  {[r |-> Pause([r1 EXCEPT !.conns[id].reqs = @ \o Append(Tail(cy.reqs), fw.req)], id, "InflightFull"),
+                  {[r |-> Pause([r1 EXCEPT !.conns[id].reqs = @ \o Append(Tail(cy.reqs), fw.req) \o cy.skipped], id, "InflightFull"),
                     obuf |-> fw.obuf, rang |-> cy.rang]}
              [] fw.status = "FilterCaughtup" ->
-                  Loop([r |-> [r1 EXCEPT !.waiters[fw.req.f] = Append(@, <<id, fw.req>>)], reqs |-> Tail(cy.reqs),
+                  Loop([r |-> [r1 EXCEPT !.waiters[Base(fw.req.f)] = Append(@, <<id, fw.req>>)], reqs |-> Tail(cy.reqs), skipped |-> cy.skipped,
                         obuf |-> fw.obuf, rang |-> cy.rang + fw.rang], id, n - 1)
              [] fw.status = "PartialRead" ->
-                  Loop([r |-> r1, reqs |-> Append(Tail(cy.reqs), fw.req), obuf |-> fw.obuf, rang |-> cy.rang + fw.rang], id, n - 1)
+                  Loop([r |-> r1, reqs |-> Append(Tail(cy.reqs), fw.req), skipped |-> cy.skipped, obuf |-> fw.obuf, rang |-> cy.rang + fw.rang], id, n - 1)
+             [] fw.status = "SkipRequest" ->
+                  Loop([r |-> r1, reqs |-> Tail(cy.reqs), skipped |-> Append(cy.skipped, fw.req), obuf |-> fw.obuf, rang |-> cy.rang], id, n - 1)
          : fw \in Forward(cy.r, id, Head(cy.reqs), cy.obuf) }
 
 Consume(s) ==
@@ -459,6 +558,6 @@ Consume(s) ==
                  ob0 == s.nets[n].obuf \o c.acks
                  rang0 == IF c.acks # <<>> THEN 1 ELSE 0
              IN  { St(x.r, RingN([s.nets EXCEPT ![n].obuf = x.obuf], n, x.rang))
-                   : x \in Loop([r |-> r1, reqs |-> c.reqs, obuf |-> ob0, rang |-> rang0], id, MaxSched) }
+                   : x \in Loop([r |-> r1, reqs |-> c.reqs, skipped |-> <<>>, obuf |-> ob0, rang |-> rang0], id, MaxSched) }
 
 =============================================================================
